@@ -97,6 +97,13 @@ package stree
 //@
 //@ spec sameNode(y *node[T]) bool := y.left == old(y.left) && y.right == old(y.right) && y.X == old(y.X) && y.keys == old(y.keys) && y.desc == old(y.desc) && y.cnt == old(y.cnt) && y.rep == old(y.rep)
 //@
+// chainOK(top, sp, m): sp[0..m) is the chain of nodes reached from top by right links (sp[0] == top, the last one has
+// no right child), with strictly decreasing node counts (so pairwise different).
+//@ pred chainOK(top *node[T], sp imap[*node[T]], m int) := m >= 0 && (m == 0 <==> top == nil) && (m > 0 ==> sp[0] == top && sp[m - 1].right == nil)
+//@+     && (forall k int :: {sp[k]} 0 <= k && k < m ==> sp[k] != nil && allocated(sp[k]) && inD(top, sp[k]))
+//@+     && (forall a int, b int :: {sp[a], sp[b]} 0 <= a && b == a + 1 && b < m ==> sp[a].right == sp[b])
+//@+     && (forall a int, b int :: {sp[a], sp[b]} 0 <= a && a < b && b < m ==> sp[a].cnt > sp[b].cnt)
+//@
 // treeToVine: right rotations turn the subtree into a right-leaning chain (every left link nil) of the same nodes. Each
 // rotation re-derives the ghost fields of the two nodes it moves; every other node keeps its sets (the rotated pair
 // spans the same nodes and keys as before). vs lists the chain from the top (vn nodes, linked by right).
@@ -110,6 +117,7 @@ package stree
 //@   ensures  [C01] desc: forall y ref :: {inD(result, y)} inD(result, y) <==> old(inD(n, y))
 //@   ensures  [C01] reps: forall k int :: {result.rep[k]} inK(result, k) ==> result.rep[k] == old(n.rep[k])
 //@   ensures  [C01] vine: forall y *node[T] :: {inD(result, y)} inD(result, y) ==> y.left == nil
+//@   ensures  [C01] chain: chainOK(result, vs, vn) && vn == cntOf(result)
 //@   ensures  [C01] values: forall y *node[T] :: {y.X} old(allocated(y)) ==> y.X == old(y.X)
 //@   ensures  [C01] frame: forall y *node[T] :: {y.left} {y.right} {y.X} {y.keys} {y.desc} {y.cnt} {y.rep} old(allocated(y)) && !old(inD(n, y)) ==> sameNode(y)
 //@   modifies every(n.left), every(n.right), every(n.keys), every(n.desc), every(n.cnt), every(n.rep)
@@ -122,6 +130,11 @@ package stree
 //@   loop 1: invariant [C01] below: cur != stub ==> (forall y ref :: {inD(cur.right, y)} inD(cur.right, y) ==> y in cur.desc && y != cur)
 //@   loop 1: invariant [C01] values: forall y *node[T] :: {y.X} old(allocated(y)) ==> y.X == old(y.X)
 //@   loop 1: invariant [C01] frame: forall y *node[T] :: {y.left} {y.right} {y.X} {y.keys} {y.desc} {y.cnt} {y.rep} old(allocated(y)) && !(y in D0) ==> sameNode(y)
+//@   at entry: ghost vn = 0
+//@   loop 1: invariant [C01] chain: vn >= 0 && (vn == 0 <==> cur == stub) && (vn > 0 ==> vs[0] == stub.right && vs[vn - 1] == cur)
+//@   loop 1: invariant [C01] links: (forall k int :: {vs[k]} 0 <= k && k < vn ==> vs[k] != nil && vs[k] in D0 && vs[k].left == nil && !inD(cur.right, vs[k]) && vs[k].cnt == cntOf(stub.right) - k) && (forall a int, b int :: {vs[a], vs[b]} 0 <= a && b == a + 1 && b < vn ==> vs[a].right == vs[b])
+//@   at before "cur = C": ghost vs[vn] = C
+//@   at before "cur = C": ghost vn = vn + 1
 //@   loop 1: invariant [C01] spine: cur != stub ==> forall y *node[T] :: {y in D0} y in D0 && !inD(cur.right, y) && y != cur ==> inD(y.right, cur)
 //@   at after "L := C.left": assert [C01] C in D0 && L in D0 && L != C && L in C.desc && !(C in L.desc) && (cur != stub ==> C in cur.desc && C != cur && L != cur)
 //@   at after "L := C.left": assert [C01] forall y *node[T] :: {y in D0} y in D0 && inD(cur.right, y) && y != C ==> y.left != C && y.right != C
